@@ -230,6 +230,80 @@ theorem og_window_eq_prom_window (q : OGQuery) (hd : 0 ≤ q.dur) (hs : 0 < q.st
     intro ts _
     exact og_bounds_eq_prom_bounds q k ts
 
+/-! ### the instant cursor: last sample of the look-back window -/
+
+variable {V : Type}
+
+/-- what the instant-vector cursor's sampler yields for one output timestamp: the last sample
+of the window `[t-off-lb, t-off]` (`floatLastReduce` over the interval), dropped when it is a
+staleness marker (`if model.IsStaleNaN(value) { continue }`). -/
+def ogInstant (lb off t : Int) (pts : List (Pt V)) : Option V :=
+  match (pts.filter (fun p => inWindow lb off t p.t)).getLast? with
+  | none => none
+  | some p => if p.stale then none else some p.v
+
+theorem ascending_le_getLast : ∀ {w : List (Pt V)} {p l : Pt V}, Ascending w → p ∈ w →
+    w.getLast? = some l → p.t ≤ l.t
+  | [], _, _, _, hp, _ => by simp at hp
+  | [a], p, l, _, hp, hl => by
+    simp at hp hl; subst hp; subst hl; exact Int.le_refl _
+  | a :: b :: rest, p, l, hs, hp, hl => by
+    have hs' : Ascending (b :: rest) := (List.pairwise_cons.mp hs).2
+    have ha := (List.pairwise_cons.mp hs).1
+    have hl' : (b :: rest).getLast? = some l := by simpa [List.getLast?_cons_cons] using hl
+    rcases List.mem_cons.mp hp with rfl | hp'
+    · have hlm : l ∈ b :: rest := List.mem_of_getLast? hl'
+      have := ha l hlm
+      omega
+    · exact ascending_le_getLast hs' hp' hl'
+
+/-- **og_instant_eq_reference**: on ascending samples, with a non-negative look-back, the
+sample the instant cursor picks for an output timestamp is the reference's instant selection
+(latest sample not after `t-off`, not older than the look-back, not a staleness marker). -/
+theorem og_instant_eq_reference {lb off t : Int} {pts : List (Pt V)} (hs : Ascending pts) (hlb : 0 ≤ lb) :
+    ogInstant lb off t pts = instantSelect lb off t pts := by
+  unfold ogInstant instantSelect
+  have hmemw : ∀ q, q ∈ pts.filter (fun p => inWindow lb off t p.t) ↔ q ∈ pts ∧ t - off - lb ≤ q.t ∧ q.t ≤ t - off := by
+    intro q; simp [inWindow]
+  cases h : latestLE (t - off) pts with
+  | none =>
+    have hall := latestLE_none_iff.mp h
+    have : pts.filter (fun p => inWindow lb off t p.t) = [] := by
+      apply List.filter_eq_nil_iff.mpr
+      intro q hq
+      have := hall q hq
+      simp [inWindow]; intro _; omega
+    simp [this]
+  | some p =>
+    have hc := (latestLE_eq_some_iff hs).mp h
+    by_cases h1 : p.t < t - off - lb
+    · have : pts.filter (fun p => inWindow lb off t p.t) = [] := by
+        apply List.filter_eq_nil_iff.mpr
+        intro q hq
+        simp only [inWindow, Bool.and_eq_true, decide_eq_true_eq, not_and]
+        intro h2 h3
+        have := hc.2.2 q hq h3
+        omega
+      simp [this, h1]
+    · have hpw : p ∈ pts.filter (fun p => inWindow lb off t p.t) := (hmemw p).mpr ⟨hc.1, by omega, hc.2.1⟩
+      have hasc : Ascending (pts.filter (fun p => inWindow lb off t p.t)) :=
+        List.Pairwise.sublist List.filter_sublist hs
+      cases hl : (pts.filter (fun p => inWindow lb off t p.t)).getLast? with
+      | none =>
+        have : pts.filter (fun p => inWindow lb off t p.t) = [] := List.getLast?_eq_none_iff.mp hl
+        rw [this] at hpw; simp at hpw
+      | some l =>
+        have hlm : l ∈ pts.filter (fun p => inWindow lb off t p.t) := List.mem_of_getLast? hl
+        have hl1 := (hmemw l).mp hlm
+        have hle := ascending_le_getLast hasc hpw hl
+        have hge := hc.2.2 l hl1.1 hl1.2.2
+        have : l = p := ascending_eq_of_t_eq hs hl1.1 hc.1 (by omega)
+        subst this
+        simp [h1]
+
+example : ogInstant 300 10 1000 [⟨700, (7:Int), false⟩, ⟨900, 8, false⟩, ⟨995, 9, false⟩] = some 8 := by decide
+example : ogInstant 300 0 1000 [⟨700, (7:Int), false⟩, ⟨900, 8, true⟩] = none := by decide
+
 -- non-vacuity: three steps over a record, boundary-exact samples on both ends of a window
 example : ogWindows 10 [0, 5, 10, 11, 20, 21, 35] [0, 5, 10, 11, 20, 21, 35] [10, 20, 30]
     = [[0, 5, 10], [10, 11, 20], [20, 21]] := by decide
